@@ -40,7 +40,7 @@ type readerModel struct {
 	Seed       *types.Func
 	SeedKeyArg bool
 	HasValue   bool
-	FullRange  bool   // the walk covers every delta of the block (index 0 and len-1 included)
+	FullRange  bool // the walk covers every delta of the block (index 0 and len-1 included)
 	RangeWhy   string
 	Problems   []string
 }
